@@ -58,8 +58,8 @@ Definition needs_esc (c : Z) : bool := (c <? 32) || (c =? 34) || (c =? 92).
 (* the loop of print_string: runs of plain characters go through print, also when empty *)
 Fixpoint str_ops (run : list Z) (s : list Z) : list prim :=
   match s with
-  | [] => [PPrint (rev run)]
-  | c :: t => if needs_esc c then PPrint (rev run) :: esc_ops c ++ str_ops [] t else str_ops (c :: run) t
+  | [] => [PPrint (frev run)]
+  | c :: t => if needs_esc c then PPrint (frev run) :: esc_ops c ++ str_ops [] t else str_ops (c :: run) t
   end.
 
 (* f applied to the elements of a list in order, told which one is first *)
